@@ -134,22 +134,36 @@ def check(run, prog, tier):
         if s.arg(1, "remote") != addr:
             failures.setdefault("R4:reply-to-sender", f"{desc}: reply goes to {show(s.arg(1, 'remote'))}, not to the sender")
         b = s.args[0] if s.args else None
-        okb = b is not None and b[0] == "call" and b[1][0] == "bound" and b[1][2] == build_q and b[1][1][0] == "replace" and b[1][1][1] == msg
-        if not okb:
-            failures.setdefault("R4:reply-derived-from-request", f"{desc}: reply is {show(b)[:90]}, not the request with replaced fields (ids would not be echoed for all values)")
+        eff = None  # effective reply fields as terms
+        if b is not None and b[0] == "call" and b[1][0] == "bound" and b[1][2] == build_q:
+            obj = b[1][1]
+            base = {f: ("attr", msg, f) for f in ("service_id", "method_id", "client_id", "session_id", "interface_version",
+                                                  "protocol_version", "message_type", "return_code", "payload")}
+            if obj[0] == "replace" and obj[1] == msg:
+                eff = dict(base)
+                eff.update(dict(obj[2]))
+            elif obj[0] == "new" and obj[1] == "header.SOMEIPHeader":
+                eff = {"protocol_version": const(1), "return_code": const(rc["E_OK"]), "payload": const(b"")}
+                eff.update(dict(obj[2]))
+        if eff is None:
+            failures.setdefault("R4:reply-derived-from-request", f"{desc}: reply is {show(b)[:90]}, not a SOME/IP message derived from the request")
             continue
-        repl = dict(b[1][1][2])
+        for f in ("service_id", "method_id", "client_id", "session_id", "interface_version"):
+            if eff.get(f) != ("attr", msg, f):
+                failures.setdefault(f"R4:echo[{f}]", f"{desc}: reply {f} = {show(eff.get(f)) if eff.get(f) else '<missing>'}; must echo the request's {f} for every value")
+        try:
+            got_mt, got_rc, got_pl = eval_term(eff["message_type"], leaf), eval_term(eff["return_code"], leaf), eval_term(eff["payload"], leaf)
+        except KeyError as exc:
+            failures.setdefault("R4:reply-fields", f"{desc}: reply lacks {exc}")
+            continue
         if want[0] == "ERROR":
-            okr = set(repl) == {"message_type", "return_code", "payload"} and repl["message_type"] == const(mt["ERROR"]) \
-                and eval_term(repl["return_code"], leaf) == rc[want[1]] and repl["payload"] == const(b"")
-            if not okr:
-                got = {k: show(v) for k, v in repl.items()}
-                key = f"R2:return-code[{want[1]}]" if set(repl) == {"message_type", "return_code", "payload"} else "R4:error-reply-fields"
-                failures.setdefault(key, f"{desc}: error reply replaces {got}; expected ERROR / {want[1]} / empty payload and nothing else")
+            if got_mt != mt["ERROR"] or got_pl != b"":
+                failures.setdefault("R4:error-reply-fields", f"{desc}: error reply has type {got_mt!r} and payload {got_pl!r}; expected ERROR with empty payload")
+            if got_rc != rc[want[1]]:
+                failures.setdefault(f"R2:return-code[{want[1]}]", f"{desc}: error reply carries {got_rc!r}; expected {want[1]}")
         else:
-            okr = set(repl) == {"message_type", "payload"} and repl["message_type"] == const(mt["RESPONSE"]) and eval_term(repl["payload"], leaf) == b"resp"
-            if not okr:
-                failures.setdefault("R3:positive-reply-fields", f"{desc}: positive reply replaces { {k: show(v) for k, v in repl.items()} }; expected RESPONSE with the handler's payload, return code left E_OK")
+            if got_mt != mt["RESPONSE"] or got_rc != rc["E_OK"] or got_pl != b"resp":
+                failures.setdefault("R3:positive-reply-fields", f"{desc}: positive reply has type {got_mt!r}, return code {got_rc!r}, payload {got_pl!r}; expected RESPONSE / E_OK / the handler's payload")
     run.abstract_cases += cases
     run.exhaustive = True
     for k in sorted(failures):
